@@ -1,6 +1,6 @@
 (** Entry point of the extracted model driver: one case line in, one result line out.
     The first token selects the operation. *)
-From Lisp Require Import Wire Equal Boot Binder.
+From Lisp Require Import Wire Equal Boot Binder Arena.
 
 Definition bad : list N := s_ "BADCASE".
 
@@ -65,7 +65,7 @@ Definition run_binder (ts : list tok) : list N :=
               | Some (args, []) =>
                   let sg := mkSig (Z.eqb ctx 1) (map ty_of_code fx)
                                   (if Z.eqb va 0 then None else Some (ty_of_code va)) (Z.to_nat nres) in
-                  match bind sg decl with
+                  match Binder.bind sg decl with
                   | RegPanic _ => s_ "R"
                   | Bound mn mx =>
                       match gate sg mn mx args with
@@ -92,12 +92,90 @@ Definition run_binder (ts : list tok) : list N :=
   | _ => bad
   end.
 
+(** H <nops> <op>...: a history of collection operations run on the L1 arena machine
+    (Arena.v) under Go's growth rule; output: the final reading of every register. *)
+Definition go_grow_rule (cap need : nat) : nat := Nat.max need (2 * cap).
+
+Definition parse_operand (ts : list tok) : option ((nat + val) * list tok) :=
+  match ts with
+  | TNum 0 :: TNum r :: rest => Some (inl (Z.to_nat r), rest)
+  | TNum 1 :: rest => match parse_value rest with Some (v, rest') => Some (inr v, rest') | None => None end
+  | _ => None
+  end.
+
+Fixpoint parse_operands (n : nat) (ts : list tok) : option (list (nat + val) * list tok) :=
+  match n with
+  | O => Some ([], ts)
+  | S n' => match parse_operand ts with
+            | Some (x, r) => match parse_operands n' r with Some (l, r') => Some (x :: l, r') | None => None end
+            | None => None
+            end
+  end.
+
+Fixpoint parse_kv_operands (n : nat) (ts : list tok) : option (list (str * (nat + val)) * list tok) :=
+  match n with
+  | O => Some ([], ts)
+  | S n' => match parse_str ts with
+            | Some (k, r) =>
+                match parse_operand r with
+                | Some (x, r1) => match parse_kv_operands n' r1 with Some (l, r') => Some ((k, x) :: l, r') | None => None end
+                | None => None
+                end
+            | None => None
+            end
+  end.
+
+Definition parse_op (ts : list tok) : option (op * list tok) :=
+  match ts with
+  | TNum 1 :: TNum n :: r => match parse_operands (Z.to_nat n) r with Some (l, r') => Some (OpLit l, r') | None => None end
+  | TNum 2 :: TNum n :: r => match parse_kv_operands (Z.to_nat n) r with Some (l, r') => Some (OpLitMap l, r') | None => None end
+  | TNum 3 :: TNum rg :: TNum n :: r => match parse_operands (Z.to_nat n) r with Some (l, r') => Some (OpConj (Z.to_nat rg) l, r') | None => None end
+  | TNum 4 :: TNum rg :: TNum n :: r => match take_zs (Z.to_nat n) r with Some (l, r') => Some (OpConcat (Z.to_nat rg) (map Z.to_nat l), r') | None => None end
+  | TNum 5 :: r => match parse_operand r with Some (x, TNum rg :: r') => Some (OpCons x (Z.to_nat rg), r') | _ => None end
+  | TNum 6 :: TNum rg :: r => Some (OpRest (Z.to_nat rg), r)
+  | TNum 7 :: TNum rg :: r => Some (OpVec (Z.to_nat rg), r)
+  | TNum 8 :: TNum rg :: r => Some (OpSeq (Z.to_nat rg), r)
+  | TNum 9 :: TNum rg :: r => Some (OpWithMeta (Z.to_nat rg), r)
+  | TNum 10 :: TNum rg :: TNum a :: TNum b :: r => Some (OpSubvec (Z.to_nat rg) (Z.to_nat a) (Z.to_nat b), r)
+  | TNum 11 :: TNum n :: TNum rg :: r => Some (OpTake (Z.to_nat n) (Z.to_nat rg), r)
+  | TNum 12 :: TNum n :: TNum rg :: r => Some (OpDrop (Z.to_nat n) (Z.to_nat rg), r)
+  | TNum 13 :: TNum rg :: r => match parse_str r with
+                                | Some (k, r1) => match parse_operand r1 with Some (x, r') => Some (OpAssoc (Z.to_nat rg) k x, r') | None => None end
+                                | None => None end
+  | TNum 14 :: TNum rg :: TNum i :: r => match parse_operand r with Some (x, r') => Some (OpAssocVec (Z.to_nat rg) (Z.to_nat i) x, r') | None => None end
+  | TNum 15 :: TNum rg :: TNum n :: r => match parse_strs (Z.to_nat n) r with Some (ks, r') => Some (OpDissoc (Z.to_nat rg) ks, r') | None => None end
+  | TNum 16 :: TNum a :: TNum b :: r => Some (OpMerge (Z.to_nat a) (Z.to_nat b), r)
+  | _ => None
+  end.
+
+Fixpoint parse_ops (n : nat) (ts : list tok) : option (list op * list tok) :=
+  match n with
+  | O => Some ([], ts)
+  | S n' => match parse_op ts with
+            | Some (o, r) => match parse_ops n' r with Some (l, r') => Some (o :: l, r') | None => None end
+            | None => None
+            end
+  end.
+
+Definition run_history_line (ts : list tok) : list N :=
+  match ts with
+  | TNum n :: r =>
+      match parse_ops (Z.to_nat n) r with
+      | Some (ops, []) =>
+          let '(A, regs) := run_history go_grow_rule [] [] ops in
+          s_ "V " ++ show_val (VList (map (abs 64 A) regs) None) ++ s_ "| l 0 "
+      | _ => bad
+      end
+  | _ => bad
+  end.
+
 Definition run_tokens (ts : list tok) : list N :=
   match ts with
   | TTag c :: r =>
       if N.eqb c (tagc "Q") then run_equal r
       else if N.eqb c (tagc "P") then run_program r
       else if N.eqb c (tagc "B") then run_binder r
+      else if N.eqb c (tagc "H") then run_history_line r
       else bad
   | _ => bad
   end.
